@@ -43,10 +43,54 @@ def generate(rng, n, tier, stats):
         kind = 'i' if pts and all(float(p).is_integer() for p in pts) and rng.random() < 0.5 else 'f'
         if kind == 'i': pts = [int(p) for p in pts]
         left = rng.choice([None, None, -99.0]); right = rng.choice([None, None, 77.5])
+        if rng.random() < 0.3:
+            # interp_like: the other object shares 0..nd dimensions with the array (in its own order) and has further ones
+            k = rng.randint(0, nd); sh = rng.sample(range(nd), k)
+            others = []
+            for j in sh:
+                if j == i: others.append([a['dims'][j], kind, pts]); continue
+                lj = a['labels'][j]; pj = sorted(set([rng.choice(lj), min(lj) - 1, (min(lj) + max(lj)) / 2.0, max(lj) + 2]))
+                pj = rng.sample(pj, rng.randint(1, len(pj)))
+                others.append([a['dims'][j], 'f', [float(x) for x in pj]])
+            if rng.random() < 0.5: others.append(['other%d' % rng.randrange(9), 'i', [1, 2]])
+            rng.shuffle(others)
+            stats['interp_like_shared'][k] += 1
+            cases.append({'ins': [a], 'ops': [['interp_like', others, left, right, rng.random() < 0.3]]})
+            continue
         cases.append({'ins': [a], 'ops': [['interp', pts, kind, r, left, right]]})
     return cases
 
+def oracle_like(case, res):
+    a = case['ins'][0]; _, others, left, right, _ = case['ops'][0]
+    arr = mk_array(a); obs = arr_json(arr)
+    if res[0] == 'err': return 'interp_like raised %s' % res[1]
+    rr = res[1]['v']
+    if obs_dims(rr) != a['dims']: return 'dims changed'
+    if rr['attrs'] != obs['attrs']: return 'metadata lost'
+    v = np.asarray(arr.values, dtype=float)
+    om = {}
+    for n, k, l in others: om.setdefault(n, l)
+    for p, d in enumerate(a['dims']):
+        if d not in om:
+            if not labs_eq(rr['axes'][p]['labels'], a['labels'][p]): return 'an axis the other object does not have changed'
+            continue
+        pts = om[d]
+        if not labs_eq(rr['axes'][p]['labels'], pts): return 'axis %s is %r, expected exactly the other object\'s labels %r' % (d, rr['axes'][p]['labels'], pts)
+        x = np.array(a['labels'][p], dtype=float); order = np.argsort(x)
+        f = lambda fib: np.interp(np.array(pts, dtype=float), x[order], fib[order], left=np.nan if left is None else left, right=np.nan if right is None else right)
+        if len(pts) == 0: v = v.take([], axis=p)
+        elif v.size == 0: v = np.zeros(v.shape[:p] + (len(pts),) + v.shape[p + 1:])
+        else: v = np.apply_along_axis(f, p, v)
+    w = v.ravel().tolist()
+    if len(w) != len(rr['flat']): return 'shape differs'
+    for g, y in zip(rr['flat'], w):
+        if isinstance(g, dict):
+            if y == y: return 'NaN where successive numpy.interp gives %r' % y
+        elif y != y or abs(float(g) - y) > 1e-9 * (1 + abs(y)): return 'value %r, successive numpy.interp on the fibres gives %r' % (g, y)
+    return None
+
 def oracle(case, res):
+    if case['ops'][0][0] == 'interp_like': return oracle_like(case, res)
     a = case['ins'][0]; _, pts, kind, r, left, right = case['ops'][0]
     arr = mk_array(a); obs = arr_json(arr)
     p = a['dims'].index(r) if isinstance(r, str) else r
